@@ -1,5 +1,7 @@
 package vaxis
 
+import "git.sr.ht/~rockorager/vaxis/ansi"
+
 // Helpers exported to harnesses living in other packages (overlay only).
 
 // VerifBare builds a Vaxis with buffers only (no console, no goroutines).
@@ -13,3 +15,9 @@ func VerifCursor(vx *Vaxis) (row, col int, style CursorStyle, visible bool) {
 	c := vx.cursorNext
 	return c.row, c.col, c.style, c.visible
 }
+
+// VerifDecodeKey exposes decodeKey to harnesses in other packages.
+func VerifDecodeKey(seq ansi.Sequence) Key { return decodeKey(seq) }
+
+// VerifParseMouse exposes parseMouseEvent.
+func VerifParseMouse(seq ansi.CSI) (Mouse, bool) { return parseMouseEvent(seq) }
